@@ -1,7 +1,6 @@
 package main
 
 import (
-	"encoding/json"
 	"fmt"
 
 	"verif/harness/internal/h"
@@ -28,6 +27,8 @@ func corpus(r *h.Run) {
 		}}
 		runSeq(r, sc, false)
 	}
+	// D15: a client that times out on the entry lock must not release the holder's lock
+	runGated(r, d15Witness())
 }
 
 func seqTail(next int) []opSpec {
@@ -110,7 +111,3 @@ func pathClass(p string) string {
 	}
 	return "other"
 }
-
-func replayOther(r *h.Run, typ string, raw json.RawMessage) {}
-
-func otherScenarios(r *h.Run) {}
